@@ -1,5 +1,6 @@
-from checks import scan, text, hexre, cond, shortcuts
+from checks import scan, text, hexre, cond, shortcuts, externals
 CHECKS = {
+    "C20": externals.c20,
     "C12": shortcuts.c12,
     "C04": cond.c04,
     "C02": hexre.c02,
